@@ -179,13 +179,15 @@ NearProg(kind) ==
 \* contained type answers
 \* registers: 1 F(0.0)  2 F(-0.0)  3 D1(0.0)  4 D2(0.0)  5 D1(-0.0)  6 F(1.5)
 \*            7 D1 and 8 D2 that are zero in value AND in every derivative while still listing names (what x - x leaves behind)
-\*            9..16 their wrap-copies
+\*            9 D2 zero but for its second-order array;  10..18 their wrap-copies
 SignZeroProg ==
   LET z2 == <<FZ, FZ>>
       leaves == << LeafF(FZ), LeafF(FNeg(FZ)), Leaf("D1", 1, FZ, <<"a">>), Leaf("D2", 2, FZ, <<"a">>), Leaf("D1", 3, FNeg(FZ), <<"a">>), LeafF(FOfRat(3, 2)),
-                   [t |-> "D1", re |-> FZ, vars |-> <<"a", "b">>, d |-> z2], [t |-> "D2", re |-> FZ, vars |-> <<"a", "b">>, d |-> z2, d2half |-> <<z2, z2>>] >>
-      wraps == [i \in 1..8 |-> [op |-> "wrap", a |-> i]]
-      un == {[op |-> op, a |-> a, fa |-> "r"] : op \in {"is_positive", "is_negative", "signum", "is_zero", "abs", "neg"}, a \in 1..16}
+                   [t |-> "D1", re |-> FZ, vars |-> <<"a", "b">>, d |-> z2], [t |-> "D2", re |-> FZ, vars |-> <<"a", "b">>, d |-> z2, d2half |-> <<z2, z2>>],
+                   \* 9: zero in value and gradient but NOT in its second-order array (x * x at 0): not a zero
+                   [t |-> "D2", re |-> FZ, vars |-> <<"a", "b">>, d |-> z2, d2half |-> <<<<FOne, FZ>>, <<FZ, FZ>>>>] >>
+      wraps == [i \in 1..9 |-> [op |-> "wrap", a |-> i]]
+      un == {[op |-> op, a |-> a, fa |-> "r"] : op \in {"is_positive", "is_negative", "signum", "is_zero", "abs", "neg"}, a \in 1..18}
   IN [key |-> "kinds/signzero", leaves |-> leaves, code |-> wraps \o SetToSeq(un)]
 
 \* equality across kinds where everything of lower order coincides: a second-order number with ZERO gradient and a
